@@ -335,6 +335,9 @@ def gen_ws(rng):
     n = rng.randint(1, 3)
     pairs = [{"units": rng.choice(list(UNITS)), "a": rng.randint(1, 5), "b": rng.randint(0, 3), "w": rng.choice([1, 2, 4]), "wd": rng.choice([1, 2, 4])}
              for _ in range(n)]
+    for p in pairs:
+        if rng.random() < 0.2:
+            p["wpercent"] = True
     same_units = rng.random() < 0.5
     if same_units:
         for p in pairs:
@@ -368,7 +371,9 @@ def run_ws(case):
     prods, weights = [], []
     for i, p in enumerate(case["pairs"]):
         prods.append(Prod(f"V{i}", p["units"], 1, lambda h, p=p: float("nan") if p.get("nan") else float(p["a"] * h + p["b"])))
-        weights.append(Prod(f"W{i}", "", 1, lambda h, p=p: p["w"] / p["wd"]))
+        # a weight may be published in percent (a dimensionless unit other than 1): it is converted on its link like any value
+        weights.append(Prod(f"W{i}", "percent", 1, lambda h, p=p: 100.0 * p["w"] / p["wd"]) if p.get("wpercent")
+                       else Prod(f"W{i}", "", 1, lambda h, p=p: p["w"] / p["wd"]))
     ws = fm.components.WeightedSum(inputs=[f"in{i}" for i in range(len(prods))])
     cons = [Cons(f"C{k}", s, log, twice=bool(case.get("twice"))) for k, s in enumerate(case["csteps"])]
     comps = prods + weights + [ws] + cons
